@@ -17,6 +17,7 @@ package main
 // callee only in the rows where that preserves meaning.
 
 import (
+	"os"
 	"fmt"
 	"go/token"
 	"go/types"
@@ -70,6 +71,32 @@ func (r *rwRT) optInterp(root *ssa.Function) *Interp {
 		if cc.Fn != nil && cc.Fn.Name() == "MustLookup" && len(cc.Args) == 2 {
 			if s, ok := asString(cc.Args[1]); ok {
 				return []Answer{{Ret: []AV{Sym{Name: "obj:" + s, NN: true}}, NoEvent: true}}
+			}
+		}
+		// a looked-up object of package seq: its name, and its type (the functions of seq have signature types,
+		// one per function)
+		name, recv := "", AV(nil)
+		switch {
+		case cc.Method != "":
+			name, recv = cc.Method, cc.Recv
+		case cc.Fn != nil && fnPkgPath(cc.Fn) == "go/types" && cc.Fn.Signature.Recv() != nil && len(cc.Args) == 1:
+			name, recv = cc.Fn.Name(), cc.Args[0]
+		}
+		if recv != nil {
+			rv := unwrap(recv)
+			if fr, ok := rv.(FieldRef); ok { // the embedded object of a *types.Func
+				rv = unwrap(fr.Base)
+			}
+			if sy, ok := rv.(Sym); ok && strings.HasPrefix(sy.Name, "obj:"+pathSeq+".") {
+				short := strings.TrimPrefix(sy.Name, "obj:"+pathSeq+".")
+				switch name {
+				case "Name":
+					return []Answer{{Ret: []AV{mkString(short)}, NoEvent: true}}
+				case "Type":
+					if tp := r.w.importedPkg(pathRw, "go/types"); tp != nil {
+						return []Answer{{Ret: []AV{Dyn{T: types.NewPointer(tp.Scope().Lookup("Signature").Type()), V: Sym{Name: "sigof:" + short, NN: true, Uniq: true}}}, NoEvent: true}}
+					}
+				}
 			}
 		}
 		return nil
@@ -137,6 +164,65 @@ func flattenOr(v AV) []AV {
 	return []AV{v}
 }
 
+// calleesOfTerm: the functions of package seq a callee pattern accepts. FuncCallee(m, obj, name) names one;
+// FuncCalleeOf(m, predicate) accepts what its predicate accepts: the predicate is run on every function of seq
+// (its name and type answered from the package), and must give a definite answer for each.
+func (r *rwRT) calleesOfTerm(st *State, in *Interp, v AV) ([]string, bool) {
+	if n, ok := calleeOfTerm(v); ok {
+		return []string{n}, true
+	}
+	e, ok := unwrap(v).(Expr)
+	if !ok || !strings.HasPrefix(e.Op, "FuncCalleeOf") || len(e.Args) != 2 {
+		return nil, false
+	}
+	pred, ok := e.Args[1].(Closure)
+	if !ok {
+		return nil, false
+	}
+	tp := r.w.importedPkg(pathRw, "go/types")
+	if tp == nil {
+		return nil, false
+	}
+	var names []string
+	scope := r.w.Pkgs[pathSeq].Types.Scope()
+	for _, n := range scope.Names() {
+		if _, isFn := scope.Lookup(n).(*types.Func); !isFn {
+			continue
+		}
+		f := Dyn{T: types.NewPointer(tp.Scope().Lookup("Func").Type()), V: Sym{Name: "obj:" + pathSeq + "." + n, NN: true}}
+		outs := in.Apply(st, pred, []AV{Sym{Name: "matchctx", NN: true}, f})
+		r.account(in)
+		yes, no := 0, 0
+		for _, o := range outs {
+			if o.Panicked || len(o.Ret) != 1 {
+				if os.Getenv("VERIF_DEBUG_CALLEE") != "" {
+					fmt.Fprintln(os.Stderr, "CALLEE", n, "panicked/ret", pathSummary(o))
+				}
+				return nil, false
+			}
+			b, known := asBool(o.Ret[0])
+			if !known {
+				if os.Getenv("VERIF_DEBUG_CALLEE") != "" {
+					fmt.Fprintln(os.Stderr, "CALLEE", n, "unknown", canon(o.Ret[0]), pathSummary(o))
+				}
+				return nil, false
+			}
+			if b {
+				yes++
+			} else {
+				no++
+			}
+		}
+		if yes > 0 && no > 0 {
+			return nil, false
+		}
+		if yes > 0 {
+			names = append(names, n)
+		}
+	}
+	return names, len(names) > 0
+}
+
 // calleeOfTerm: FuncCallee(m, obj:<path>.<Name>, "Name") -> Name
 func calleeOfTerm(v AV) (string, bool) {
 	e, ok := unwrap(v).(Expr)
@@ -164,8 +250,8 @@ func (r *rwRT) ruleOptWhitelist(s *seqRT) {
 		c.und("OPT.WHITELIST", "pattern shape", pos, "the Delay-elision pattern is not AndEx(callee, call shape): "+st.Render(pattern))
 		return
 	}
-	outer, isDelay := calleeOfTerm(top.Args[1])
-	if !isDelay || outer != "Delay" {
+	outers, isDelay := r.calleesOfTerm(st, in, top.Args[1])
+	if !isDelay || len(outers) != 1 || outers[0] != "Delay" {
 		c.bad("OPT.WHITELIST", "pattern shape", pos, "the elision pattern is not anchored on calls of seq.Delay: "+st.Render(top.Args[1]))
 		return
 	}
@@ -245,16 +331,24 @@ func (r *rwRT) ruleOptWhitelist(s *seqRT) {
 	}
 	var names []string
 	for _, alt := range flattenOr(bound) {
-		if name, ok := calleeOfTerm(alt); ok {
-			names = append(names, name)
-			ct := certify(name)
-			c.check(ct.ok, "OPT.WHITELIST", "Delay elided around seq."+name+"(...)", pos, ct.why, "seq."+name+" is whitelisted unconditionally but is not an effect-free constructor: "+ct.why)
+		if ns, ok := r.calleesOfTerm(st, in, alt); ok {
+			for _, name := range ns {
+				names = append(names, name)
+				ct := certify(name)
+				c.check(ct.ok, "OPT.WHITELIST", "Delay elided around seq."+name+"(...)", pos, ct.why, "seq."+name+" is whitelisted unconditionally but is not an effect-free constructor: "+ct.why)
+			}
 			continue
 		}
 		// conditional alternative: AndEx(m, FuncCallee(N), &CallExpr{Args: [...]})
 		ae, ok := unwrap(alt).(Expr)
 		if ok && strings.HasPrefix(ae.Op, "AndEx") && len(ae.Args) == 3 {
-			name, isCallee := calleeOfTerm(ae.Args[1])
+			cns, isCallee := r.calleesOfTerm(st, in, ae.Args[1])
+			name := ""
+			if isCallee && len(cns) == 1 {
+				name = cns[0]
+			} else {
+				isCallee = false
+			}
 			callObj := st.Obj(unwrap(ae.Args[2]))
 			if isCallee && callObj != nil {
 				obj, _ := r.w.Pkgs[pathSeq].Types.Scope().Lookup(name).(*types.Func)
